@@ -283,6 +283,10 @@ def build_corpus(seed: int, n_templates: int, max_bytes: int) -> List[Dict[str, 
         renamed = re.sub(r"\bt0\b", "t0x", text)
         if renamed != text and rng.random() < 0.5:
             docs.append((name + "~t0x", renamed))
+        # the deprecated spelling of column constraints (after the type, without brackets)
+        old = re.sub(r"(?m)^(\s+\S+ [\w()]+) \[(pk|unique)\]$", r"\1 \2", text)
+        if old != text:
+            docs.append((name + "~oldstyle", old))
         # one part of a schema split over two files: a table definition is left out, what refers to it stays
         # (not a valid document on its own - unless nothing referred to the table; a sibling defines it)
         blocks = list(re.finditer(r"Table (?:\"?\w+\"?\.)?\"?(\w+)\"?[^{\n]*\{\n[\s\S]*?\n\}\n*", text))
